@@ -23,4 +23,44 @@ func (url *URLRule) createRateLimiter()
   requires url != nil && policyOK(url.policy)
   modifies url.rl, allof("ghost:github.com/megaease/easegress/pkg/util/ratelimiter.clock")
   ensures url.rl != nil
+
+// ---- C11 / C09: hot update of the filter ----
+ufunc samePolicy(s1 *Spec, s2 *Spec, ref string) bool
+
+func isSamePolicy(spec1 *Spec, spec2 *Spec, policyName string) (same bool)
+  trusted
+  pure
+  ensures same == samePolicy(spec1, spec2, policyName)
+
+func (rl *RateLimiter) createRateLimiterForURL(u *URLRule)
+  trusted
+  flag allocates
+  requires u != nil
+  modifies u.rl, u.policy, u.URLRule.id
+  ensures u.rl != nil && fresh(u.rl)
+
+func (rl *RateLimiter) bindPolicyToURL(u *URLRule)
+  trusted
+  requires u != nil
+  modifies u.policy
+
+func (rl *RateLimiter) setStateListenerForURL(u *URLRule)
+  trusted
+  requires u != nil && u.rl != nil
+
+pred urlsWF(s *Spec) := s != nil && (forall k int :: 0 <= k && k < len(s.URLs) ==> s.URLs[k] != nil)
+pred disjointGenerations(a *Spec, b *Spec) := forall i, j int :: 0 <= i && i < len(a.URLs) && 0 <= j && j < len(b.URLs) ==> a.URLs[i] != b.URLs[j]
+
+func (rl *RateLimiter) reload(previousGeneration *RateLimiter)
+  flag allocates
+  requires rl != nil && urlsWF(rl.spec) && (previousGeneration != nil ==> previousGeneration != rl && urlsWF(previousGeneration.spec) && disjointGenerations(rl.spec, previousGeneration.spec))
+  modifies allof("filters/ratelimiter.URLRule.rl"), allof("filters/ratelimiter.URLRule.policy"), allof("filters/ratelimiter.URLRule.URLRule.id"), allof("filters/ratelimiter.URLRule.URLRule.URL.re")
+  ensures previous-generation-keeps-its-limiters: previousGeneration != nil ==> (forall k int :: 0 <= k && k < len(previousGeneration.spec.URLs) ==> previousGeneration.spec.URLs[k].rl == old(previousGeneration.spec.URLs[k].rl))
+  ensures every-rule-has-a-limiter: forall k int :: 0 <= k && k < len(rl.spec.URLs) ==> rl.spec.URLs[k].rl != nil
+  ensures limiter-is-inherited-or-new: previousGeneration != nil ==> (forall k int :: 0 <= k && k < len(rl.spec.URLs) ==> fresh(rl.spec.URLs[k].rl) || (exists j int :: 0 <= j && j < len(previousGeneration.spec.URLs) && rl.spec.URLs[k].rl == old(previousGeneration.spec.URLs[j].rl) && urlrule.sameRule(ref(addr(rl.spec.URLs[k].URLRule)), ref(addr(previousGeneration.spec.URLs[j].URLRule))) && samePolicy(rl.spec, previousGeneration.spec, rl.spec.URLs[k].URLRule.PolicyRef)))
+  invariant[1] forall k int :: 0 <= k && k < idx$1 ==> rl.spec.URLs[k].rl != nil
+  invariant[2] prev-kept: inherited != nil && fresh(inherited) && (forall k int :: 0 <= k && k < len(previousGeneration.spec.URLs) ==> previousGeneration.spec.URLs[k].rl == old(previousGeneration.spec.URLs[k].rl))
+  invariant[2] done-so-far: forall k int :: 0 <= k && k < idx$2 ==> rl.spec.URLs[k].rl != nil && (fresh(rl.spec.URLs[k].rl) || (exists j int :: 0 <= j && j < len(previousGeneration.spec.URLs) && rl.spec.URLs[k].rl == old(previousGeneration.spec.URLs[j].rl) && urlrule.sameRule(ref(addr(rl.spec.URLs[k].URLRule)), ref(addr(previousGeneration.spec.URLs[j].URLRule))) && samePolicy(rl.spec, previousGeneration.spec, rl.spec.URLs[k].URLRule.PolicyRef)))
+  invariant[3] prev-kept: inherited != nil && fresh(inherited) && 0 <= idx$2 && idx$2 < len(rl.spec.URLs) && url == rl.spec.URLs[idx$2] && (forall k int :: 0 <= k && k < len(previousGeneration.spec.URLs) ==> previousGeneration.spec.URLs[k].rl == old(previousGeneration.spec.URLs[k].rl))
+  invariant[3] done-so-far: forall k int :: 0 <= k && k < idx$2 ==> rl.spec.URLs[k].rl != nil && (fresh(rl.spec.URLs[k].rl) || (exists j int :: 0 <= j && j < len(previousGeneration.spec.URLs) && rl.spec.URLs[k].rl == old(previousGeneration.spec.URLs[j].rl) && urlrule.sameRule(ref(addr(rl.spec.URLs[k].URLRule)), ref(addr(previousGeneration.spec.URLs[j].URLRule))) && samePolicy(rl.spec, previousGeneration.spec, rl.spec.URLs[k].URLRule.PolicyRef)))
 @*/
